@@ -1225,7 +1225,15 @@ def reference():
 def _rename_strings(x, fmap, pmap):
     """rewrite, everywhere in a raw fact tree, function ids (exact or as a `::`-prefix) and field projection names"""
     if isinstance(x, dict):
-        return {k: _rename_strings(v, fmap, pmap) for k, v in x.items()}
+        out = {}
+        for k, v in x.items():
+            if k == "fields" and pmap and isinstance(v, list) and all(isinstance(e, str) for e in v):
+                out[k] = [pmap.get(e, e) for e in v]        # field names of an aggregate
+            elif k == "name" and pmap and isinstance(v, str) and v in pmap and "p" in x:
+                out[k] = v                                   # (debug-info names are left alone)
+            else:
+                out[k] = _rename_strings(v, fmap, pmap)
+        return out
     if isinstance(x, list):
         return [_rename_strings(v, fmap, pmap) for v in x]
     if isinstance(x, str):
